@@ -976,15 +976,27 @@ func init() {
 		"log.Printf", "log.Println", "log.Print", "fmt.Println", "fmt.Printf", "fmt.Print",
 		"(*log.Logger).Printf", "(*log.Logger).Println", "(*log.Logger).Print",
 		"runtime.GC", "runtime.Gosched", "runtime/debug.FreeOSMemory", "log.SetOutput", "log.SetFlags",
-		"(*sync.WaitGroup).Add", "(*sync.WaitGroup).Done",
 		"runtime.SetFinalizer", "runtime.KeepAlive",
 	} {
 		intrinsics[n] = noop
 	}
 	intrinsics["(*sync.Mutex).TryLock"] = func(fr *frame, args []value) value { return true }
 	intrinsics["(*sync.RWMutex).TryLock"] = func(fr *frame, args []value) value { return true }
+	intrinsics["(*sync.WaitGroup).Add"] = func(fr *frame, args []value) value {
+		p := args[0].(*value)
+		fr.i.wgCount()[p] += int(asInt64(args[1]))
+		fr.i.progress++
+		return nil
+	}
+	intrinsics["(*sync.WaitGroup).Done"] = func(fr *frame, args []value) value {
+		p := args[0].(*value)
+		fr.i.wgCount()[p]--
+		fr.i.progress++
+		return nil
+	}
 	intrinsics["(*sync.WaitGroup).Wait"] = func(fr *frame, args []value) value {
-		fr.i.runQueued()
+		p := args[0].(*value)
+		fr.i.blockUntil(func() bool { return fr.i.wgCount()[p] <= 0 }, "WaitGroup.Wait")
 		return nil
 	}
 	intrinsics["(*sync.Once).Do"] = func(fr *frame, args []value) value {
@@ -1263,11 +1275,3 @@ func (e *Exec) randIntn(n value, w int) value {
 	return symBV{name, w}
 }
 
-// runQueued runs goroutines queued by `go` statements to completion (sequential policy).
-func (i *interpreter) runQueued() {
-	for len(i.goq) > 0 {
-		f := i.goq[0]
-		i.goq = i.goq[1:]
-		f()
-	}
-}
